@@ -59,25 +59,34 @@ func c04Scenarios(tier string) []schedh.Scenario {
 
 func c05Scenarios(tier string) []schedh.Scenario {
 	var out []schedh.Scenario
-	add := func(name string, files map[string]string, fail []string, targets ...string) {
-		for _, kg := range []bool{false, true} {
-			for _, n := range []int{1, 2} {
+	add := func(quick bool, name string, files map[string]string, fail []string, kgs []bool, targets ...string) {
+		if tier != "thorough" && !quick {
+			return
+		}
+		ns := []int{2}
+		if tier == "thorough" {
+			ns = []int{1, 2}
+			kgs = []bool{false, true}
+		}
+		for _, kg := range kgs {
+			for _, n := range ns {
 				out = append(out, schedh.Scenario{Name: fmt.Sprintf("%s-n%d-kg%v", name, n, kg), Files: files, Targets: targets, Threads: n, KeepGoing: kg, FailCmd: fail, MustFail: true})
 			}
 		}
 	}
+	f, t := []bool{false}, []bool{true}
 	chain := map[string]string{"p/BUILD": rule("a", ":b") + rule("b", ":c") + rule("c")}
-	add("cmdfail-leaf", chain, []string{"//p:c"}, "//p:a")
-	add("cmdfail-mid", chain, []string{"//p:b"}, "//p:a")
-	add("cmdfail-diamond", map[string]string{"p/BUILD": rule("a", ":b", ":c") + rule("b", ":d") + rule("c") + rule("d")}, []string{"//p:d"}, "//p:a")
-	add("parse-error", map[string]string{"p/BUILD": rule("a", "//q:b"), "q/BUILD": "build_rule(name=\"b\", cmd=\"FAKE\", outs=[\"b.out\"]\n"}, nil, "//p:a")
-	add("undefined-dep", map[string]string{"p/BUILD": rule("a", ":nope")}, nil, "//p:a")
-	add("undefined-dep-otherpkg", map[string]string{"p/BUILD": rule("a", "//q:nope"), "q/BUILD": rule("b")}, nil, "//p:a")
-	add("missing-package", map[string]string{"p/BUILD": rule("a", "//q:b")}, nil, "//p:a")
-	add("cycle2", map[string]string{"p/BUILD": rule("a", ":b") + rule("b", ":a")}, nil, "//p:a")
-	add("cycle3", map[string]string{"p/BUILD": rule("a", ":b") + rule("b", ":c") + rule("c", ":a")}, nil, "//p:a")
-	add("cycle-xpkg", map[string]string{"p/BUILD": rule("a", "//q:b"), "q/BUILD": rule("b", "//p:a")}, nil, "//p:a")
-	add("two-roots-one-fails", map[string]string{"p/BUILD": rule("a") + rule("b")}, []string{"//p:b"}, "//p:a", "//p:b")
+	add(false, "cmdfail-leaf", chain, []string{"//p:c"}, f, "//p:a")
+	add(true, "cmdfail-mid", chain, []string{"//p:b"}, t, "//p:a")
+	add(false, "cmdfail-diamond", map[string]string{"p/BUILD": rule("a", ":b", ":c") + rule("b", ":d") + rule("c") + rule("d")}, []string{"//p:d"}, f, "//p:a")
+	add(true, "parse-error", map[string]string{"p/BUILD": rule("a", "//q:b"), "q/BUILD": "build_rule(name=\"b\", cmd=\"FAKE\", outs=[\"b.out\"]\n"}, nil, f, "//p:a")
+	add(true, "undefined-dep", map[string]string{"p/BUILD": rule("a", ":nope")}, nil, f, "//p:a")
+	add(false, "undefined-dep-otherpkg", map[string]string{"p/BUILD": rule("a", "//q:nope"), "q/BUILD": rule("b")}, nil, f, "//p:a")
+	add(true, "missing-package", map[string]string{"p/BUILD": rule("a", "//q:b")}, nil, f, "//p:a")
+	add(true, "cycle2", map[string]string{"p/BUILD": rule("a", ":b") + rule("b", ":a")}, nil, f, "//p:a")
+	add(false, "cycle3", map[string]string{"p/BUILD": rule("a", ":b") + rule("b", ":c") + rule("c", ":a")}, nil, f, "//p:a")
+	add(false, "cycle-xpkg", map[string]string{"p/BUILD": rule("a", "//q:b"), "q/BUILD": rule("b", "//p:a")}, nil, f, "//p:a")
+	add(true, "two-roots-one-fails", map[string]string{"p/BUILD": rule("a") + rule("b")}, []string{"//p:b"}, t, "//p:a", "//p:b")
 	return out
 }
 
